@@ -1,129 +1,15 @@
 // Package engine turns the simulator, the generator and the reference
-// semantics into per-property checks. Every random decision of a case goes
-// through a Chooser; the sequence of values it returned is the case's identity
-// (replay files store it), and with rapid behind it the same sequence is what
-// gets shrunk.
+// semantics into per-property checks.
 package engine
 
 import (
-	"math/rand"
+	"verifharness/choice"
 
 	"pgregory.net/rapid"
 )
 
-type Chooser interface {
-	// Intn returns a value in [0, n); n <= 1 yields 0 without consuming a draw.
-	Intn(n int) int
-	// Ints returns a slice of at most maxLen values in [0, n).
-	Ints(maxLen, n int) []int
-}
+type Chooser = choice.Chooser
+type recorder = choice.Recorder
+type replayChooser = choice.Replay
 
-// recorder wraps a Chooser and remembers everything it handed out, in a flat
-// list: Intn appends the value, Ints appends the length and then the values.
-type recorder struct {
-	in    Chooser
-	Draws []int
-}
-
-func (r *recorder) Intn(n int) int {
-	if n <= 1 {
-		return 0
-	}
-	v := r.in.Intn(n)
-	r.Draws = append(r.Draws, v)
-	return v
-}
-
-func (r *recorder) Ints(maxLen, n int) []int {
-	v := r.in.Ints(maxLen, n)
-	r.Draws = append(r.Draws, len(v))
-	r.Draws = append(r.Draws, v...)
-	return v
-}
-
-// rapidChooser draws from a *rapid.T: the only source of randomness in checks.
-type rapidChooser struct{ t *rapid.T }
-
-func (c rapidChooser) Intn(n int) int {
-	if n <= 1 {
-		return 0
-	}
-	return rapid.IntRange(0, n-1).Draw(c.t, "c")
-}
-
-func (c rapidChooser) Ints(maxLen, n int) []int {
-	if maxLen <= 0 || n <= 1 {
-		return nil
-	}
-	return rapid.SliceOfN(rapid.IntRange(0, n-1), 0, maxLen).Draw(c.t, "v")
-}
-
-// replayChooser plays back a recorded draw list; once exhausted (or out of
-// range after a hand edit) it answers 0 / empty.
-type replayChooser struct {
-	draws []int
-	pos   int
-	Over  bool
-}
-
-func (c *replayChooser) next() int {
-	if c.pos >= len(c.draws) {
-		c.Over = true
-		return 0
-	}
-	v := c.draws[c.pos]
-	c.pos++
-	return v
-}
-
-func (c *replayChooser) Intn(n int) int {
-	if n <= 1 {
-		return 0
-	}
-	v := c.next()
-	if v < 0 || v >= n {
-		c.Over = true
-		return 0
-	}
-	return v
-}
-
-func (c *replayChooser) Ints(maxLen, n int) []int {
-	l := c.next()
-	if l < 0 || l > maxLen {
-		c.Over = true
-		l = 0
-	}
-	out := make([]int, 0, l)
-	for i := 0; i < l; i++ {
-		v := c.next()
-		if v < 0 || v >= n {
-			c.Over = true
-			v = 0
-		}
-		out = append(out, v)
-	}
-	return out
-}
-
-// randChooser is used by self-tests only.
-type randChooser struct{ r *rand.Rand }
-
-func (c randChooser) Intn(n int) int {
-	if n <= 1 {
-		return 0
-	}
-	return c.r.Intn(n)
-}
-
-func (c randChooser) Ints(maxLen, n int) []int {
-	if maxLen <= 0 || n <= 1 {
-		return nil
-	}
-	l := c.r.Intn(maxLen + 1)
-	out := make([]int, l)
-	for i := range out {
-		out[i] = c.r.Intn(n)
-	}
-	return out
-}
+func newRecorder(rt *rapid.T) *recorder { return &recorder{In: choice.Rapid{T: rt}} }
